@@ -4,10 +4,14 @@
    entries, failed Add); they are stated as _refuted with witnesses that the check replays on the real code.  What holds
    for all states is stated beside them; the history-level statements for histories without those ingredients are
    PARTIAL: proved for every history of two finite families (side conditions as explicit predicates, see KqInv.v), and
-   beyond the bound established by the differential runs only. *)
+   beyond the bound established by the differential runs only.
+   UNBOUNDED (theories/KqHist.v, induction over the history): create_once and preexisting_silent, at the level of the
+   event log and as the clauses "create-once" / "preexisting-silent" of the specification on the model's own trace, for
+   EVERY history satisfying the decidable premise run_ok (and adds_ok); see the section "UNBOUNDED" below.  The other
+   clauses (create-missed, recreate, remove-missed, change-missed, names-user-spelling) remain bounded. *)
 From Coq Require Import NArith List String Bool.
 From stdpp Require Import gmap.
-From Fsn Require Import KqModel KqInv.
+From Fsn Require Import KqModel KqInv KqHist.
 Import ListNotations.
 Local Open Scope N_scope.
 Local Open Scope string_scope.
@@ -52,6 +56,181 @@ Theorem C18_history_clauses_bounded_burst_partial : forall w x,
   In (w, x) burst_family -> no_rename_recreate [] w = true -> c18_ok (prologue ++ SHold :: w ++ [SRelease; x]) = true.
 Proof. exact c18_clauses_bounded_burst_partial. Qed.
 
+(* history level, positive, UNBOUNDED (theories/KqHist.v: induction over the history, every length).
+   Premise: [run_ok c h s = true], a boolean computed along the run of h from s.  It checks, in the states the reader
+   actually goes through, that none of the ingredients of the known defects occurs:
+     - when sendCreateIfNew has sent a Create for p, internalWatch succeeds and returns p
+       (false for a FIFO entry and for an unresolvable symlink entry: keys fifo-entry, dangling-symlink-entry);
+     - a Remove/Rename record belongs to a descriptor that is still watched;
+     - a directory watch does not receive Write and Rename in ONE record (the reader then re-scans the directory
+       INSTEAD of sending the Rename: w_dir_rename_dropped, a refutation of create-once not listed before);
+     - the user does not Remove a path that is watched (keys remove-of-unadded-succeeds, entry-user-removed);
+   nothing is checked once the watcher is closed.  It holds on h_plain, h_burst (C18_unbounded_nonvacuous) and is false
+   on every witness that refutes create-once / preexisting-silent (C18_premise_false_on_witnesses). *)
+
+(* create_once: between two Create events for one name there is a Remove or Rename event for that name *)
+Theorem C18_create_once_unbounded : forall c h,
+  run_ok c h st_init = true ->
+  forall A e1 B e2 C, rev (evs (run c h st_init)) = (A ++ e1 :: B ++ e2 :: C)%list ->
+    is_create e1 = true -> is_create e2 = true -> e_name e1 = e_name e2 ->
+    exists e, In e B /\ e_name e = e_name e1 /\ is_end e = true.
+Proof. exact create_once_unbounded. Qed.
+
+(* the same for the events sent during h2 after an ARBITRARY history h1 (only h2 has to satisfy the premise) *)
+Theorem C18_create_once_suffix_unbounded : forall c h1 h2,
+  run_ok c h2 (run c h1 st_init) = true ->
+  exists new, evs (run c (h1 ++ h2) st_init) = (new ++ evs (run c h1 st_init))%list /\
+    forall A e1 B e2 C, rev new = (A ++ e1 :: B ++ e2 :: C)%list ->
+      is_create e1 = true -> is_create e2 = true -> e_name e1 = e_name e2 ->
+      exists e, In e B /\ e_name e = e_name e1 /\ is_end e = true.
+Proof. exact create_once_suffix. Qed.
+
+(* preexisting_silent: the entries a successful Add of a not yet watched directory finds get no Create before a
+   Remove / Rename event for them, however long the history goes on (h1 arbitrary; no FIFO among the entries: "" unmarked) *)
+Theorem C18_preexisting_silent_unbounded : forall c h1 d h2 names,
+  let s1 := run c h1 st_init in
+  (exists got, (api_add c s1 d).2 = ROk got) ->
+  tb_byPath (T s1) (clean d) = None -> v_lstat (fs_of s1) (clean d) = inr KDir -> v_readdir (fs_of s1) (clean d) = inr names ->
+  "" ∉ t_seen (T (api_add c s1 d).1) ->
+  run_ok c (SAdd d :: h2) s1 = true ->
+  exists new, evs (run c (h1 ++ SAdd d :: h2) st_init) = (new ++ evs s1)%list /\
+    forall f, In f names ->
+      forall A e C, rev new = (A ++ e :: C)%list -> is_create e = true -> e_name e = pjoin (clean d) f ->
+        exists e', In e' A /\ e_name e' = pjoin (clean d) f /\ is_end e' = true.
+Proof. exact preexisting_silent_unbounded. Qed.
+
+(* … more generally every name that is marked seen when the Add returns *)
+Theorem C18_seen_silent_unbounded : forall c h1 d h2,
+  let s1 := run c h1 st_init in
+  run_ok c (SAdd d :: h2) s1 = true ->
+  exists new, evs (run c (h1 ++ SAdd d :: h2) st_init) = (new ++ evs s1)%list /\
+    forall p, p ∈ t_seen (T (api_add c s1 d).1) ->
+      forall A e C, rev new = (A ++ e :: C)%list -> is_create e = true -> e_name e = p ->
+        exists e', In e' A /\ e_name e' = p /\ is_end e' = true.
+Proof. exact preexisting_silent_seen. Qed.
+
+(* what a successful Add of a directory marks: every entry it scans, unless a FIFO was among them *)
+Theorem C18_add_marks_entries : forall c s d s' got names,
+  api_add c s d = (s', ROk got) ->
+  tb_byPath (T s) (clean d) = None -> v_lstat (fs_of s) (clean d) = inr KDir -> v_readdir (fs_of s) (clean d) = inr names ->
+  "" ∉ t_seen (T s') ->
+  forall f, In f names -> pjoin (clean d) f ∈ t_seen (T s').
+Proof. exact api_add_marks. Qed.
+
+(* the clause "create-once" of the specification (KqModel section 7), evaluated on the model's own trace, never fails *)
+Theorem C18_spec_create_once_unbounded : forall c h, run_ok c h st_init = true -> fails "create-once" c h = false.
+Proof. exact spec_create_once_unbounded. Qed.
+
+(* the clause "preexisting-silent" likewise; [adds_ok]: after each successful Add every entry of the directory is marked
+   seen when the step is over (C18_add_marks_entries: so it is for a directory not watched before, unless a FIFO is
+   among the entries; false on the witness w_fifo_pre) *)
+Theorem C18_spec_preexisting_silent_unbounded : forall c h,
+  run_ok c h st_init = true -> adds_ok c h st_init = true -> fails "preexisting-silent" c h = false.
+Proof. exact spec_preexisting_silent_unbounded. Qed.
+
+(* the check that can fail for an entry: only for a FIFO, a symlink, or a name that is watched already without being marked *)
+Theorem C18_premise_entry_check_characterised : forall s p k,
+  v_lstat (fs_of s) p = inr k -> is_fifo k = false -> is_link k = false -> tb_byPath (T s) p = None -> clean p = p ->
+  sc_ok s p k = true.
+Proof. exact sc_ok_fresh. Qed.
+
+(* every history of the two bounded families of the _partial statements above satisfies the premise *)
+Theorem C18_premise_on_bounded_families :
+  (forall w, In w (words alphabet 4) ->
+     run_ok cfg_repo (prologue ++ w) st_init = true /\ adds_ok cfg_repo (prologue ++ w) st_init = true)
+  /\ (forall w x, In (w, x) burst_family ->
+        run_ok cfg_repo (prologue ++ SHold :: w ++ [SRelease; x]) st_init = true
+        /\ adds_ok cfg_repo (prologue ++ SHold :: w ++ [SRelease; x]) st_init = true).
+Proof. exact premise_on_bounded_families. Qed.
+
+(* every reachable state has cleaned watch names and link names (the side condition [Cl] of the next theorem) *)
+Theorem C18_reachable_names_clean : forall c h, Cl (run c h st_init).
+Proof. exact Cl_run. Qed.
+
+(* the invariant behind them, from any state with cleaned watch names: the new events contain no Create for a name
+   that is marked seen in the base state or had a Create since, unless a Remove / Rename for it came in between *)
+Theorem C18_history_invariant_unbounded : forall c s0 h,
+  Cl s0 -> run_ok c h s0 = true ->
+  exists new, evs (run c h s0) = (new ++ evs s0)%list /\ log_ok (fun p => bool_decide (p ∈ t_seen (T s0))) new = true.
+Proof. exact hist_general. Qed.
+
+(* non-vacuity and sharpness of the premise *)
+Example C18_unbounded_nonvacuous :
+  run_ok cfg_repo h_plain st_init = true /\ length (evs (run cfg_repo h_plain st_init)) = 22%nat
+  /\ run_ok cfg_repo h_burst st_init = true /\ length (evs (run cfg_repo h_burst st_init)) = 9%nat
+  /\ run_ok cfg_before_fix h_plain st_init = true.
+Proof. exact run_ok_examples. Qed.
+
+Example C18_preexisting_premises_satisfiable :
+  let h1 := [SFs (OMkdir "d"); SFs (OCreate "d/pre"); SFs (OMkdir "d/sub")] in
+  let h2 := [SFs (OCreate "d/a"); SHold; SFs (OUnlink "d/pre"); SFs (OCreate "d/pre"); SRelease; SFs (ORmdir "d/sub"); SFs (OWrite "d/pre")] in
+  let s1 := run cfg_repo h1 st_init in
+  (api_add cfg_repo s1 "./d/").2 = ROk "d" /\ tb_byPath (T s1) (clean "./d/") = None
+  /\ v_lstat (fs_of s1) (clean "./d/") = inr KDir /\ v_readdir (fs_of s1) (clean "./d/") = inr ["pre"; "sub"]
+  /\ bool_decide ("" ∈ t_seen (T (api_add cfg_repo s1 "./d/").1)) = false
+  /\ run_ok cfg_repo (SAdd "./d/" :: h2) s1 = true
+  /\ rev (evs (run cfg_repo (h1 ++ SAdd "./d/" :: h2) st_init))
+      = [ {| e_name := "d/a"; e_op := Create |}; {| e_name := "d/pre"; e_op := Remove |}; {| e_name := "d/pre"; e_op := Create |};
+          {| e_name := "d/sub"; e_op := Remove |}; {| e_name := "d/pre"; e_op := Write |} ].
+Proof. vm_compute. repeat split; reflexivity. Qed.
+
+Example C18_premise_false_on_witnesses :
+  run_ok cfg_repo w_fifo_entry st_init = false
+  /\ run_ok cfg_repo w_dangling st_init = false
+  /\ run_ok cfg_repo w_fifo_pre st_init = false
+  /\ run_ok cfg_repo w_failed_add st_init = false
+  /\ run_ok cfg_repo w_remove_unadded st_init = false
+  /\ run_ok cfg_repo w_entry_user_removed st_init = false
+  /\ run_ok cfg_repo w_dir_rename_dropped st_init = false
+  /\ run_ok cfg_repo w_remove_entry_recreated st_init = false.
+Proof. exact run_ok_false_on_witnesses. Qed.
+
+Example C18_fifo_pre_marks_empty_name :
+  let s := run cfg_repo [SFs (OMkdir "d"); SFs (OMkfifo "d/p"); SAdd "d"] st_init in
+  "" ∈ t_seen (T s) /\ "d/p" ∉ t_seen (T s).
+Proof. exact fifo_pre_marks_empty_name. Qed.
+
+(* create-once at the level of the log is FALSE without the premise: the four ingredients, one witness each
+   (w_dir_rename_dropped: p/d is user-watched, written and renamed away in one burst; the Rename is never reported) *)
+Example C18_create_once_log_refuted :
+  (rev (evs (run cfg_repo w_dir_rename_dropped st_init))
+     = [ {| e_name := "p/d"; e_op := Create |}; {| e_name := "p/e"; e_op := Create |}; {| e_name := "p/d"; e_op := Create |} ]
+   /\ log_ok (fun _ => false) (evs (run cfg_repo w_dir_rename_dropped st_init)) = false
+   /\ fails "remove-missed" cfg_repo w_dir_rename_dropped = true)
+  /\ (rev (evs (run cfg_repo w_remove_entry_recreated st_init))
+        = [ {| e_name := "d/x"; e_op := Create |}; {| e_name := "d/x"; e_op := Create |}; {| e_name := "d/y"; e_op := Create |} ]
+      /\ log_ok (fun _ => false) (evs (run cfg_repo w_remove_entry_recreated st_init)) = false)
+  /\ log_ok (fun _ => false) (evs (run cfg_repo w_fifo_entry st_init)) = false
+  /\ log_ok (fun _ => false) (evs (run cfg_repo w_dangling st_init)) = false.
+Proof. exact create_once_log_refuted. Qed.
+
+Example C18_adds_ok_examples :
+  adds_ok cfg_repo h_plain st_init = true /\ adds_ok cfg_repo h_burst st_init = true
+  /\ adds_ok cfg_repo w_fifo_pre st_init = false
+  /\ fails "preexisting-silent" cfg_repo h_plain = false /\ fails "preexisting-silent" cfg_repo w_fifo_pre = true.
+Proof. exact adds_ok_examples. Qed.
+
+(* Remove by the user has to be excluded also for a path the user had added: the specification's own clauses fail
+   (same ingredient as key entry-user-removed, other symptom: a second Create / a Create for a pre-existing entry) *)
+Example C18_user_remove_refutes :
+  (rev (evs (run cfg_repo w_entry_removed_created_again st_init))
+     = [ {| e_name := "p/d"; e_op := Create |}; {| e_name := "p/d"; e_op := Create |}; {| e_name := "p/x"; e_op := Create |} ]
+   /\ fails "create-once" cfg_repo w_entry_removed_created_again = true
+   /\ run_ok cfg_repo w_entry_removed_created_again st_init = false)
+  /\ (rev (evs (run cfg_repo w_pre_entry_removed_created st_init))
+        = [ {| e_name := "p/f"; e_op := Create |}; {| e_name := "p/x"; e_op := Create |} ]
+      /\ fails "preexisting-silent" cfg_repo w_pre_entry_removed_created = true
+      /\ run_ok cfg_repo w_pre_entry_removed_created st_init = false).
+Proof. exact user_remove_refutes. Qed.
+
+(* the witnesses of the other clauses (keys symlink-entry, rename-then-recreate-in-burst) satisfy the premise, and
+   create-once holds on them *)
+Example C18_premise_on_other_witnesses :
+  run_ok cfg_repo w_link_entry st_init = true /\ run_ok cfg_repo w_dir_removed st_init = true /\ run_ok cfg_repo w_burst st_init = true
+  /\ fails "create-once" cfg_repo w_link_entry = false /\ fails "create-once" cfg_repo w_dir_removed = false
+  /\ fails "create-once" cfg_repo w_burst = false.
+Proof. exact run_ok_other_witnesses. Qed.
+
 (* names: link name substitution *)
 Theorem C18_names_user_spelling : forall name link mask,
   e_name (newEvent name link mask) = if String.eqb link "" then name else link.
@@ -80,3 +259,14 @@ Print Assumptions C18_history_clauses_bounded_burst_partial.
 Print Assumptions C18_names_user_spelling.
 Print Assumptions C18_names_user_spelling_refuted.
 Print Assumptions C18_kq_inv_handle.
+Print Assumptions C18_create_once_unbounded.
+Print Assumptions C18_create_once_suffix_unbounded.
+Print Assumptions C18_preexisting_silent_unbounded.
+Print Assumptions C18_seen_silent_unbounded.
+Print Assumptions C18_add_marks_entries.
+Print Assumptions C18_spec_create_once_unbounded.
+Print Assumptions C18_history_invariant_unbounded.
+Print Assumptions C18_spec_preexisting_silent_unbounded.
+Print Assumptions C18_premise_entry_check_characterised.
+Print Assumptions C18_premise_on_bounded_families.
+Print Assumptions C18_reachable_names_clean.
